@@ -235,7 +235,10 @@ def doc_logpdf(c, sites):
     good = np.asarray(c["good"], bool)
 
     def det(name):
-        # recomputed from what the caller passed in (the nuisance values and the rms map), never read back from the trace
+        # C07's own cases: recomputed from what the caller passed in (the nuisance values and the rms map), never read back from
+        # the trace; other checks (C05, C15) hand in deterministic values they have recomputed themselves
+        if not c.get("recompute_det"):
+            return float(sites[name + sfx]["value"])
         if name == "sys_rms":
             return float(n["sys_rms_base"]) * float(np.mean(r[good]))
         if name == "outlier_frac":
@@ -285,7 +288,7 @@ def oracle_case(c, real, tol_abs=1e-4, tol_rel=1e-5):
         return [Violation(f"C07:sites:{c['loss']}", f"{c['loss']}: expected one likelihood site, got {lk}", dict(kind="oracle", case=ser(c)))]
     rl = sites[lk[0]]["logp"]
     good = np.asarray(c["good"], bool)
-    doc = doc_logpdf(c, sites)
+    doc = doc_logpdf(dict(c, recompute_det=True), sites)
 
     def v(clause, msg):
         return Violation(f"C07:{clause}:{c['loss']}", f"{c['loss']}: {msg}", dict(kind="oracle", case=ser(c), clause=clause))
